@@ -464,6 +464,13 @@ class Extractor:
                 out.append(('cond', st.test, self.seq(st.body, list(before) + stmts[:idx]), self.seq(rest, list(before) + stmts[:idx + 1]), dict(node=st, early_return=True)))
                 return out
             if not mentions(st, self.stream):
+                # a statement that performs no stream operation but leaves the block (return / break / continue somewhere inside it) decides which of the
+                # following stream operations run: the normal form turns the guard idioms into if/else; anything left is not modelled
+                if rest and any(mentions(r, self.stream) for r in rest):
+                    own = [n for n in pf.walk_shallow(st) if isinstance(n, (ast.Return, ast.Break, ast.Continue))]
+                    inner = {id(n) for lp in pf.walk_shallow(st) if isinstance(lp, (ast.For, ast.AsyncFor, ast.While)) for n in ast.walk(lp) if isinstance(n, (ast.Break, ast.Continue))}
+                    if any(isinstance(n, ast.Return) or id(n) not in inner for n in own):
+                        self.fail(st, 'a statement without stream operations leaves the block (return / break / continue) in front of further stream operations (unrecognised idiom)')
                 continue
             if isinstance(st, ast.While):
                 if self.side == 'w':
